@@ -16,12 +16,12 @@ import (
 // If an error is returned, this means that this index will not be useable, and another
 // index should be used instead.
 //
-// This function will panic if an index for a hardened key is used.
+// An index for a hardened key is refused with an error as well.
 //
 // See: https://github.com/bitcoin/bips/blob/master/bip-0032.mediawiki
 func DeriveScalar(public *curve.Secp256k1Point, chaining []byte, i uint32) (*curve.Secp256k1Scalar, []byte, error) {
 	if i>>31 != 0 {
-		panic("DeriveScalar doesn't work with hardened keys.")
+		return nil, nil, fmt.Errorf("bip32: index %d is hardened, only non-hardened children can be derived from public data", i)
 	}
 
 	h := hmac.New(sha512.New, chaining)
